@@ -372,15 +372,15 @@ Definition record_scalar_product (t : tape) (lh rh : hist) (left right : list (R
 
 (* row i / column j of a rows x columns row-major list *)
 Definition row_of {A} (columns : nat) (l : list A) (i : nat) : list A := firstn columns (skipn (i * columns) l).
-Definition column_of {A} (d : A) (rows columns : nat) (l : list A) (j : nat) : list A :=
-  map (fun k => nth (k * columns + j) l d) (seq 0 rows).
+Definition column_of {A} (rows columns : nat) (l : list A) (j : nat) : list A :=
+  flat_map (fun k => firstn 1 (skipn (k * columns + j) l)) (seq 0 rows).
 
 Fixpoint matmul_cells (t : tape) (lh rh : hist) (rows inner columns : nat)
          (ldata rdata : list (R * nat)) (cells : list (nat * nat)) : option (tape * list (R * nat)) :=
   match cells with
   | [] => Some (t, [])
   | (i, j) :: r =>
-      match record_scalar_product t lh rh (row_of inner ldata i) (column_of (rO, 0) inner columns rdata j) with
+      match record_scalar_product t lh rh (row_of inner ldata i) (column_of inner columns rdata j) with
       | None => None
       | Some (t1, z) =>
           match matmul_cells t1 lh rh rows inner columns ldata rdata r with
@@ -411,9 +411,9 @@ Definition c_matmul (t : tape) (x y : cont) : outcome (tape * cont) :=
 Definition as_records (x : cont) : list rec :=
   map (fun p => mkRec (fst p) (c_hist x) (snd p)) (c_data x).
 (* iter_column_major_as_records of a matrix *)
-Definition column_major {A} (d : A) (sh : shape) (l : list A) : list A :=
+Definition column_major {A} (sh : shape) (l : list A) : list A :=
   match sh with
-  | [(_, rows); (_, columns)] => flat_map (fun j => column_of d rows columns l j) (seq 0 columns)
+  | [(_, rows); (_, columns)] => flat_map (fun j => column_of rows columns l j) (seq 0 columns)
   | _ => l
   end.
 
@@ -560,7 +560,7 @@ Definition cstep (st : cstate) (o : cop) : option (outcome (tape * list cont)) :
           if colmajor && c_tensor x then None else
           if negb tensor && negb (Nat.eqb (length sh) 2) then None else
           let rs := as_records x in
-          let rs := if colmajor then column_major (rec_constant rO) (c_shape x) rs else rs in
+          let rs := if colmajor then column_major (c_shape x) rs else rs in
           Some (omap (fun c => (t, [c])) (c_from_iter tensor sh rs))
       | None => None
       end
@@ -659,7 +659,7 @@ Fixpoint each_cells (t : tape) (rows inner columns : nat) (l r : list rec) (cs :
   match cs with
   | [] => Ok (t, [])
   | (i, j) :: rest =>
-      match each_products t (row_of inner l i) (column_of (rec_constant rO) inner columns r j) with
+      match each_products t (row_of inner l i) (column_of inner columns r j) with
       | Ok (t1, p :: ps) =>
           match each_sum t1 p ps with
           | Ok (t2, z) =>
@@ -739,7 +739,7 @@ Definition estep (st : estate) (o : cop) : option (outcome (tape * list econt)) 
           if colmajor && e_tensor x then None else
           if negb tensor && negb (Nat.eqb (length sh) 2) then None else
           let rs := e_recs x in
-          let rs := if colmajor then column_major (rec_constant rO) (e_shape x) rs else rs in
+          let rs := if colmajor then column_major (e_shape x) rs else rs in
           Some (Ok (t, [mkECont tensor sh rs]))
       | None => None
       end
